@@ -24,6 +24,7 @@ import (
 type target struct {
 	kind string
 	name string
+	key2 []byte
 	key  []byte
 	val  []byte
 	prio int32
@@ -38,12 +39,61 @@ type target struct {
 type faultRun struct {
 	w    *World
 	main *StoreH
+	// prefixDone is called when the fault-free prefix of a compound target
+	// (warm*, cold*) is over: the dry run counts only the calls after it
+	prefixDone func()
+}
+
+func (fr *faultRun) endPrefix() {
+	if fr.prefixDone != nil {
+		fr.prefixDone()
+	}
 }
 
 func (fr *faultRun) do(t target, ft *memfile.Fault) (alive bool, replaced bool) {
 	w, m := fr.w, fr.main
 	has := func() bool { return m.St.GetCollection(t.name) != nil }
 	switch t.kind {
+	case "coldvisit", "coldget", "coldlen", "coldtotals", "colddel", "coldset", "coldcopyto", "coldmin", "coldmax":
+		// flush and re-open first (no fault): neither nodes nor items are cached,
+		// every step down the tree is a node read followed by an item read
+		if !w.Flush(m, nil) || !fr.reopen(nil) {
+			return false, true
+		}
+		fr.endPrefix()
+		t2 := t
+		t2.kind = t.kind[4:]
+		alive, _ := fr.do(t2, ft)
+		return alive, true
+	case "rewarmdel":
+		// re-opened, the path to the key itself loaded by a lookup: the reads of
+		// the Delete are those of its split's sibling counts and of its join
+		if !w.Flush(m, nil) || !fr.reopen(nil) {
+			return false, true
+		}
+		if fr.main.St.GetCollection(t.name) == nil {
+			return true, true
+		}
+		if !w.Get(fr.main, t.name, t.key, false, nil) {
+			return false, true
+		}
+		fr.endPrefix()
+		return w.Del(fr.main, t.name, t.key, ft), true
+	case "halfset", "halfdel":
+		// re-opened, then ONE path warmed by a lookup of another key: the
+		// mutation meets loaded nodes on part of its way and unloaded siblings on
+		// the way back up (after the levels below have been rebuilt and marked)
+		if !w.Flush(m, nil) || !fr.reopen(nil) {
+			return false, true
+		}
+		if fr.main.St.GetCollection(t.name) != nil && !w.Get(fr.main, t.name, t.key2, false, nil) {
+			return false, true
+		}
+		fr.endPrefix()
+		t2 := t
+		t2.kind = t.kind[4:]
+		alive, _ := fr.do(t2, ft)
+		return alive, true
 	case "get":
 		if !has() {
 			return true, false
@@ -93,6 +143,7 @@ func (fr *faultRun) do(t target, ft *memfile.Fault) (alive bool, replaced bool) 
 		if !w.Get(m, t.name, t.key, false, nil) {
 			return false, false
 		}
+		fr.endPrefix()
 		return w.Del(m, t.name, t.key, ft), false
 	case "warmset":
 		if !has() {
@@ -101,6 +152,7 @@ func (fr *faultRun) do(t target, ft *memfile.Fault) (alive bool, replaced bool) 
 		if !w.Get(m, t.name, t.key, false, nil) {
 			return false, false
 		}
+		fr.endPrefix()
 		return w.SetKV(m, t.name, t.key, t.val, t.prio, false, ft), false
 	case "flush":
 		ok := w.Flush(m, ft)
@@ -388,6 +440,19 @@ func faultVariant(out *os.File, bseed int64, steps, at int, ft *memfile.Fault, p
 		case "warmset":
 			t := mk("del") // an existing key most of the time
 			return target{kind: "warmset", name: t.name, key: t.key, val: vl(), prio: []int32{rng.Int31(), rng.Int31n(4)}[rng.Intn(2)]}
+		case "coldvisit", "coldget", "coldlen", "coldtotals", "colddel", "coldset", "coldcopyto", "coldmin", "coldmax":
+			t := mk(kind[4:])
+			t.kind = kind
+			return t
+		case "rewarmdel":
+			t := mk("del")
+			t.kind = kind
+			return t
+		case "halfset", "halfdel":
+			t := mk(kind[4:])
+			t.kind = kind
+			t.key2 = ky()
+			return t
 		case "copyto":
 			return target{kind: "copyto", fe: []int{0, 1, 2, 5}[rng.Intn(4)]}
 		case "totals", "len", "collwrite", "evict":
@@ -396,10 +461,25 @@ func faultVariant(out *os.File, bseed int64, steps, at int, ft *memfile.Fault, p
 		return target{kind: kind}
 	}
 	pool := []string{"get", "get", "min", "max", "visit", "visit", "set", "set", "set", "set", "del", "del", "del", "del", "del", "totals", "len",
-		"flush", "flush", "collwrite", "collwrite", "evict", "copyto", "revert", "reopen", "warmdel", "warmdel", "warmdel", "warmset"}
+		"flush", "flush", "collwrite", "collwrite", "evict", "copyto", "revert", "reopen", "warmdel", "warmdel", "warmdel", "warmset",
+		"coldvisit", "coldvisit", "coldvisit", "coldget", "coldlen", "coldtotals", "colddel", "coldset", "coldcopyto", "coldmin", "coldmax"}
+	// Two phases.  Phase 1 (the first `cold' targets) re-opens often, so that
+	// reads go through unloaded nodes; phase 2 never re-opens on its own accord
+	// (no cold* targets, no re-open cooling): whatever a failed call left behind
+	// in memory (stale reclaim marks, half-updated caches) stays there while the
+	// remaining mutations, the unrelated allocation and the final observation run.
 	var tg []target
-	for len(tg) < 22 {
+	for _, k := range []string{"coldvisit", "halfset", "coldset", "rewarmdel", "halfdel", "colddel", "halfset", "rewarmdel"} {
+		tg = append(tg, mk(k))
+	}
+	for len(tg) < 24 {
 		tg = append(tg, mk(pool[rng.Intn(len(pool))]))
+	}
+	cold := 12
+	for i := cold; i < len(tg); i++ {
+		if len(tg[i].kind) > 4 && (tg[i].kind[:4] == "cold" || tg[i].kind[:4] == "half") {
+			tg[i].kind = tg[i].kind[4:]
+		}
 	}
 	// every list exercises the durability-related calls at least once
 	for _, must := range []string{"flush", "warmdel", "set", "del", "revert", "set", "flush"} {
@@ -422,6 +502,11 @@ func faultVariant(out *os.File, bseed int64, steps, at int, ft *memfile.Fault, p
 		if dry {
 			cnt = map[byte]int{}
 			fr.main.File.Gate = func(kind byte, off int64, n int) { cnt[kind]++ }
+			fr.prefixDone = func() {
+				for k := range cnt {
+					delete(cnt, k)
+				}
+			}
 		}
 		alive, _ := fr.do(t, fault)
 		if dry {
@@ -450,19 +535,70 @@ func faultVariant(out *os.File, bseed int64, steps, at int, ft *memfile.Fault, p
 					return counts, lens, false
 				}
 			}
+			// aftermath of a failed mutation, while whatever it left behind in
+			// memory is still there: successful mutations of other keys of the same
+			// collection (they share ancestors with the failed call's path and
+			// release the version it worked on), unrelated allocation that reuses
+			// anything freed by mistake, then a look at everything
+			switch t.kind {
+			case "set", "del", "warmdel", "warmset", "coldset", "colddel", "halfset", "halfdel", "rewarmdel":
+				if fault.Hit && fr.main.St.GetCollection(t.name) != nil {
+					arng := rand.New(rand.NewSource(bseed*31 + int64(at)))
+					for j := 0; j < 4; j++ {
+						k := u.Keys[arng.Intn(len(u.Keys))]
+						ok := true
+						if arng.Intn(3) == 0 {
+							ok = w.Del(fr.main, t.name, k, nil)
+						} else {
+							v, _ := u.NewValue(arng, false, nil)
+							ok = w.SetKV(fr.main, t.name, k, v, arng.Int31(), false, nil)
+						}
+						if !ok {
+							return counts, lens, false
+						}
+					}
+					o := w.NewMem()
+					if !w.SetColl(o, "a") {
+						return counts, lens, false
+					}
+					for j := 0; j < 6; j++ {
+						v, _ := u.NewValue(arng, false, nil)
+						if !w.SetKV(o, "a", u.Keys[arng.Intn(len(u.Keys))], v, arng.Int31n(3), false, nil) {
+							return counts, lens, false
+						}
+					}
+					for _, id := range w.storeIDs() {
+						if !w.Obs(w.stores[id], "peek", "C07") || !w.Obs(w.stores[id], "api", "C07") {
+							return counts, lens, false
+						}
+					}
+				}
+			}
 		}
 		// cool the caches between targets (same decisions in every variant):
 		// flush, then a full visit, which evicts every persisted item, so that
 		// the next lookups and mutations have to read - and can be made to fail
 		// in their split / join phases too
-		if crng.Intn(2) == 0 && t.kind != "revert" && t.kind != "reopen" {
+		// ... or flush and re-open, which drops the cached *nodes* as well (an
+		// evicting visit only drops items): the next target then has to read
+		// node records on its way down, and a failing node read deep inside a
+		// visit or a split must surface too
+		cool := crng.Intn(3)
+		if cool == 2 && i >= cold {
+			cool = 1
+		}
+		if cool != 0 && t.kind != "revert" && t.kind != "reopen" {
 			if !w.Flush(fr.main, nil) {
 				return counts, lens, false
 			}
-			for _, n := range fr.main.St.GetCollectionNames() {
-				if c := fr.main.St.GetCollection(n); c != nil {
-					c.VisitItemsAscend(w.lowTarget(n), false, func(*gkvlite.Item) bool { return true })
+			if cool == 1 {
+				for _, n := range fr.main.St.GetCollectionNames() {
+					if c := fr.main.St.GetCollection(n); c != nil {
+						c.VisitItemsAscend(w.lowTarget(n), false, func(*gkvlite.Item) bool { return true })
+					}
 				}
+			} else if !fr.reopen(nil) {
+				return counts, lens, false
 			}
 			fr.main.File.Drain()
 		}
